@@ -8,6 +8,7 @@ says: the successive calls of `Read` returned `r₁ … rₙ` with a nil error a
 -/
 import Biogo.Proofs.Fasta
 import Biogo.Proofs.Fastq
+import Biogo.Proofs.SeqFormat
 import Biogo.Generated.Seqio
 import Biogo.Generated.Alphabets
 
@@ -155,5 +156,35 @@ example :
     = [64, 64, 43, 32, 100, 10, 97, 99, 10, 43, 10, 64, 43, 10] := by decide
 
 end fastq
+
+/-! ### the `%a` / `%q` verbs of `linear.Seq` / `linear.QSeq` (corollaries)
+
+The statement of C01 names the two writers; the `Format` verbs are a second writer anchored by
+the property.  They print every letter of a `QSeq` through its `QFilter` (a score below
+`Threshold` replaces the letter by the ambiguous letter), so the round trip is about the
+sequence *as printed*: `r.letters` below are the letters after the filter (all of them, when
+every score is at least the threshold). -/
+
+section format
+open Biogo.SeqFormat
+
+/-- `fmt.Sprintf("%<w>a", s)` (any width other than 0, or no width) is read back by the FASTA
+    reader as the sequence — although the output has no final newline. -/
+theorem format_a_roundtrip (w : Option Nat) (hw : w ≠ some 0) (r : Biogo.Fasta.Rec) (hwf : wfFasta r = true) :
+    ∃ bytes, formatA w none r.name r.desc r.letters = .ok bytes ∧
+      Biogo.Fasta.readAll {} bytes = [.ret ⟨some r, none⟩, .ret ⟨none, some .eof⟩] := by
+  obtain ⟨bytes, h1, _, h3⟩ := formatA_roundtrip w hw r hwf
+  exact ⟨bytes, h1, h3⟩
+
+/-- `fmt.Sprintf("%q", s)` / `"%+q"` of a `QSeq` with scores in the printable range is read
+    back by the FASTQ reader as the sequence. -/
+theorem format_q_roundtrip (tabs : Biogo.Fastq.QTables) (enc : Biogo.Fastq.Encoding) (plus eofWithData : Bool)
+    (r : Biogo.Fastq.QRec) (hwf : wfFastq enc r = true) :
+    Biogo.Fastq.readAll ⟨.qseq enc, tabs⟩ eofWithData
+      (formatQ plus none r.name r.desc r.letters (r.quals.map (Biogo.Fastq.encode tabs enc)))
+      = [.ret ⟨some r, none⟩, .ret ⟨none, some .eof⟩] :=
+  (formatQ_roundtrip tabs enc plus eofWithData r hwf).2
+
+end format
 
 end Biogo.Properties.C01
